@@ -11,7 +11,7 @@
 (* Each line of the trace file is one run:                                 *)
 (*  [run, src, prog:[code,consts], env, budget, reuse, memory0, depth0,    *)
 (*   scopes0, events: <<[pp,op,ip,depth,scopes,memory,hastop,top]>>,       *)
-(*   end:[ok,out,err], calls, poststack, postscope]                        *)
+(*   end:[ok,out,err], calls, poststack, postscope, wfonly]                *)
 (* Consecutive lines with reuse = TRUE were executed on the same VM value: *)
 (* the model then continues from the machine state the previous run left   *)
 (* (C07).                                                                  *)
@@ -51,6 +51,8 @@ TBegin ==
   /\ LET s == BeginRun(IF Rn.reuse THEN m ELSE Fresh(Rn.budget), Rn.budget, {})
      IN IF ~WellFormed(P)
         THEN Report("mismatch", "ill-formed-program", 0, 0) /\ m' = s /\ NextRun(TRUE)
+        ELSE IF Rn.wfonly                       \* a program without a run: only its well-formedness is judged
+        THEN m' = s /\ NextRun(FALSE)
         ELSE IF s.memory # Rn.memory0
         THEN Report("mismatch", "memory-at-entry", s.memory, Rn.memory0) /\ m' = s /\ NextRun(TRUE)
         ELSE IF Rn.depth0 # 0 \/ Rn.scopes0 # 0
